@@ -83,7 +83,8 @@ def dCtx (j : Json) : D Ctx := do
 
 def dTRef (j : Json) : D TRef := do
   let sch ← (← fArr j "schema").mapM jStr
-  pure { name := ← fOptStr j "name", schema := sch, alias := ← fOptStr j "alias" }
+  pure { name := ← fOptStr j "name", schema := sch, alias := ← fOptStr j "alias",
+         ver := ← fOptStr j "ver" }
 
 def dVal (j : Json) : D Val := do
   match (← (fld j "t").getStr?) with
